@@ -262,6 +262,9 @@ def run(ctx):
     if not getattr(ctx, "_imported", False):
         ctx.import_prop("C18")
         ctx.import_prop("C19")
+        # L5 bounds the palette by "the bytes that remain of the reader's buffer": that this buffer is the tag's own `buffer`
+        # field (whose extent is L2) and not, say, the padded trait payload, is premise G6 `buffer_type:reader` of C04
+        ctx.import_prop("C04", only=lambda o: o.key == "buffer_type:reader", label="colour information is read from the buffer field")
     return ctx.finish(
         "other",
         "For every dynamically sized kind of both crates (and every header instantiation of the generic structure): the "
